@@ -24,7 +24,7 @@ def classify(dom):
     return "progressbar-no-newline" if dom == "f23" else None
 
 
-def measure_job(args):
+def _measure_job(args):
     """worker: (spec, console_width, widths) -> cases / checks / notes"""
     spec, cwidth, widths = args[:3]
     shared = len(args) > 3 and args[3]
@@ -82,7 +82,7 @@ def measure_job(args):
 RE_WORD = re.compile(r"\S+")
 
 
-def text_job(args):
+def _text_job(args):
     """worker: a text spec -> Text.__rich_measure__ vs the independent oracle; wrapping at the maximum"""
     d, = args
     console = L.make_console(80)
@@ -127,6 +127,24 @@ def text_job(args):
     return {"cases": cases, "checks": checks, "notes": notes}
 
 
+def measure_job(args):
+    try:
+        return _measure_job(args)
+    except BaseException as ex:  # noqa: BLE001 - building / encoding the tree on real rich raised: an observation, not a harness error
+        if isinstance(ex, (KeyboardInterrupt, SystemExit)):
+            raise
+        return {"cases": [], "checks": [(False, "building or encoding the renderable", args[0], f"raised {type(ex).__name__}: {ex}", None)], "notes": {}}
+
+
+def text_job(args):
+    try:
+        return _text_job(args)
+    except BaseException as ex:  # noqa: BLE001 - building / encoding the tree on real rich raised: an observation, not a harness error
+        if isinstance(ex, (KeyboardInterrupt, SystemExit)):
+            raise
+        return {"cases": [], "checks": [(False, "building or encoding the renderable", args[0], f"raised {type(ex).__name__}: {ex}", None)], "notes": {}}
+
+
 def account(ctx, results):
     for r in results:
         for fn, args, impl, shape, sample in r["cases"]:
@@ -143,7 +161,7 @@ def run(ctx):
     jobs = []
     for spec in corner_specs():
         jobs.append((spec, 80, list(range(0, 41)) + [60, 100]))
-    n = 1600 if quick else 35000
+    n = 1600 if quick else 30000
     for _ in range(n):
         d = rng.choice([1, 2, 2, 3, 3, 4])
         spec = L.gen_tree(rng, d)
